@@ -1,6 +1,6 @@
 (** Property C02: every returned suggestion is self-consistent and fully retrievable. *)
 Require Import Riti.model.Base Riti.model.Chars Riti.model.Split Riti.model.Rank Riti.model.Layout Riti.model.Phonetic
-        Riti.model.FixedCompose Riti.model.FixedSuggest Riti.model.TestOracle Riti.proofs.C02_Proof.
+        Riti.model.FixedCompose Riti.model.FixedSuggest Riti.model.TestOracle Riti.proofs.C01_Proof Riti.proofs.C02_Proof.
 
 (** Phonetic method, for EVERY oracle (any transliteration, dictionary, emoji tables), configuration, state,
     key and selection byte: a list-style suggestion holds at least one candidate, its auxiliary text is
@@ -20,6 +20,12 @@ Theorem C02_phonetic_backspace :
   forall (Q : oracles) (c : pcfg) (s : pstate) (ctrl : bool),
     let r := p_backspace Q c s ctrl in full_ok (p_buf (fst r)) None (snd r).
 Proof. exact p_backspace_ok. Qed.
+
+(** ... where the composition is the raw typed text that survives: a function of the events alone (characters of the
+    keys appended, one removed per backspace, emptied by ctrl-backspace, commit and finish), for every state. *)
+Theorem C02_composition_is_surviving_text :
+  forall (Q : oracles) c s e c' s' o, p_step Q c s e = Some (c', s', o) -> p_buf s' = compose_step (p_buf s) e.
+Proof. exact buffer_is_composition. Qed.
 
 (** Fixed method: the candidate list is never empty, the auxiliary text is the composed text, the index is 0 < length;
     [x_inv] (the stored list is non-empty whenever it can be shown again) is an invariant of every event. *)
@@ -57,5 +63,6 @@ Proof. vm_compute. reflexivity. Qed.
 
 Print Assumptions C02_phonetic_key.
 Print Assumptions C02_phonetic_backspace.
+Print Assumptions C02_composition_is_surviving_text.
 Print Assumptions C02_fixed_key.
 Print Assumptions C02_fixed_backspace.
